@@ -1,4 +1,5 @@
 import Proofs.Codec
+import Model.Tls
 /-!
 Lemmas about the tile-leaf, extension and MerkleTreeLeaf codecs (used by `Props/C10.lean`).
 -/
@@ -316,5 +317,301 @@ theorem leaf_canonical (bs : Bytes) (e : LogEntry) (rest : Bytes) (h : readTileL
             · rw [sp.ts]; unfold maxInt64 at hle; simp only [Int.ofNat_eq_natCast]; omega
             · rw [sp.isPre]; simp [sp.pre, hp]
       · cases h
+
+/-! ### MerkleTreeLeaf against the independent TLS encoder; injectivity -/
+open Tls
+
+theorem beBytes_eq_toBE (k v : Nat) : beBytes k v = toBE k v := by
+  induction k generalizing v with
+  | zero => rfl
+  | succ k ih =>
+    simp only [beBytes, ih]
+    clear ih
+    induction k generalizing v with
+    | zero => simp [toBE]
+    | succ k ih2 =>
+      rw [toBE, toBE]
+      have e1 : v / 256 / 256 ^ k = v / 256 ^ (k + 1) := by
+        rw [Nat.div_div_eq_div_mul, Nat.pow_succ, Nat.mul_comm]
+      have e2 : v / 256 % 256 ^ k = v % 256 ^ (k + 1) / 256 := by
+        rw [Nat.pow_succ, Nat.mul_comm, Nat.mod_mul_right_div_self]
+      have e3 : v % 256 ^ (k + 1) % 256 = v % 256 := by
+        apply Nat.mod_mod_of_dvd
+        exact ⟨256 ^ k, by rw [Nat.pow_succ, Nat.mul_comm]⟩
+      rw [List.cons_append, e1, e2, ← e3, ih2 (v % 256 ^ (k + 1))]
+
+
+theorem extensionsOf_eq_ct {e : LogEntry} {ext : Bytes} (h : extensionsOf e = some ext) : ext = ctExtensions e := by
+  unfold extensionsOf at h
+  unfold ctExtensions
+  cases ha : e.archival with
+  | true => simp [ha] at h ⊢; exact h
+  | false =>
+    simp only [ha, Bool.false_eq_true, if_false] at h ⊢
+    by_cases hr : e.leafIndex < 0 ∨ 1099511627776 ≤ e.leafIndex
+    · rw [marshalExtensions_none hr] at h; cases h
+    · rw [marshalExtensions_eq (by omega) (by omega)] at h
+      cases h
+      simp only [Val.encode, encodeAll, beBytes_eq_toBE, toBE_length, List.append_nil]
+      rfl
+
+theorem mtl_spec (e : LogEntry) (bs : Bytes) (h : merkleTreeLeaf e = some bs) :
+    bs = (MerkleTreeLeaf.ofEntry e).encode := by
+  unfold merkleTreeLeaf at h
+  cases hx : extensionsOf e with
+  | none => rw [hx] at h; cases h
+  | some ext =>
+    rw [hx] at h
+    simp only [encSpec] at h
+    obtain ⟨_, rfl⟩ := encChecked_eq_some.mp h
+    rw [extensionsOf_eq_ct hx]
+    unfold MerkleTreeLeaf.ofEntry
+    cases hp : e.isPrecert with
+    | false =>
+      show enc [.fixed 1, .fixed 1, .fixed 8, .fixed 2, .lenp 3, .lenp 2]
+        [[0], [0], toBE 8 (u64 e.timestamp), toBE 2 0, e.certificate, ctExtensions e] = _
+      simp only [Val.encode, encodeAll, beBytes_eq_toBE, enc, encField, List.append_nil, List.append_assoc,
+        Bool.false_eq_true, if_false]
+      rfl
+    | true =>
+      show enc [.fixed 1, .fixed 1, .fixed 8, .fixed 2, .fixed 32, .lenp 3, .lenp 2]
+        [[0], [0], toBE 8 (u64 e.timestamp), toBE 2 1, e.issuerKeyHash, e.certificate, ctExtensions e] = _
+      simp only [Val.encode, encodeAll, beBytes_eq_toBE, enc, encField, List.append_nil, List.append_assoc, if_true]
+      rfl
+
+/-- a left inverse of `merkleTreeLeaf` on the covered fields (proof device for injectivity) -/
+def mtlView (bs : Bytes) : Option (Nat × Bool × Bytes × Bytes × Bytes) :=
+  match dec [.fixed 1, .fixed 1, .fixed 8, .fixed 2] bs with
+  | some ([_, _, ts, ty], r) =>
+    if fromBE ty = 0 then
+      match dec [.lenp 3, .lenp 2] r with
+      | some ([cert, ext], _) => some (fromBE ts, false, [], cert, ext)
+      | _ => none
+    else
+      match dec [.fixed 32, .lenp 3, .lenp 2] r with
+      | some ([ikh, cert, ext], _) => some (fromBE ts, true, ikh, cert, ext)
+      | _ => none
+  | _ => none
+
+theorem mtl_view (e : LogEntry) (wf : WF e) :
+    ∃ bs ext, merkleTreeLeaf e = some bs ∧ extensionsOf e = some ext ∧
+      readLeafExt ext = .ok (e.archival, e.leafIndex) ∧
+      mtlView bs = some (e.timestamp.toNat, e.isPrecert, (if e.isPrecert then e.issuerKeyHash else []), e.certificate, ext) := by
+  obtain ⟨hc, ht0, ht1, hikh, hfp, hnfp, hpre, hidx⟩ := wf
+  obtain ⟨ext, hext, hrext, hextl⟩ := ext_ok e hidx
+  have hts := ts_roundtrip ht0 ht1
+  unfold merkleTreeLeaf
+  rw [hext]
+  have hP : ∀ ty : Bytes, ty.length = 2 →
+      Fits [.fixed 1, .fixed 1, .fixed 8, .fixed 2] [[0], [0], toBE 8 (u64 e.timestamp), ty] := by
+    intro ty hty
+    simp only [Fits, Field.fits, toBE_length]
+    exact ⟨rfl, rfl, trivial, hty, trivial⟩
+  cases hp : e.isPrecert with
+  | false =>
+    have hB : Fits [.lenp 3, .lenp 2] [e.certificate, ext] := by
+      simp only [Fits, Field.fits]; exact ⟨hc, hextl, trivial⟩
+    refine ⟨enc ([.fixed 1, .fixed 1, .fixed 8, .fixed 2] ++ [.lenp 3, .lenp 2])
+        ([[0], [0], toBE 8 (u64 e.timestamp), toBE 2 0] ++ [e.certificate, ext]), ext, ?_, rfl, hrext, ?_⟩
+    · have : Fits (schemaOf (merkleLeafSpec false)) (valuesOf (merkleLeafSpec false) (e, ext)) :=
+        Fits_append (hP _ (toBE_length _ _)) hB
+      simp only [encSpec, encChecked, this, if_true]; rfl
+    · unfold mtlView
+      have := dec_enc_append [.fixed 1, .fixed 1, .fixed 8, .fixed 2] [.lenp 3, .lenp 2]
+        [[0], [0], toBE 8 (u64 e.timestamp), toBE 2 0] [e.certificate, ext] [] (hP _ (toBE_length _ _))
+      rw [List.append_nil] at this
+      rw [this]
+      have h0 : fromBE (toBE 2 0) = 0 := by decide
+      simp only [h0, if_true]
+      have := dec_enc [.lenp 3, .lenp 2] [e.certificate, ext] [] hB
+      rw [this, hts]
+      simp
+  | true =>
+    have hB : Fits [.fixed 32, .lenp 3, .lenp 2] [e.issuerKeyHash, e.certificate, ext] := by
+      simp only [Fits, Field.fits]; exact ⟨hikh, hc, hextl, trivial⟩
+    refine ⟨enc ([.fixed 1, .fixed 1, .fixed 8, .fixed 2] ++ [.fixed 32, .lenp 3, .lenp 2])
+        ([[0], [0], toBE 8 (u64 e.timestamp), toBE 2 1] ++ [e.issuerKeyHash, e.certificate, ext]), ext, ?_, rfl, hrext, ?_⟩
+    · have : Fits (schemaOf (merkleLeafSpec true)) (valuesOf (merkleLeafSpec true) (e, ext)) :=
+        Fits_append (hP _ (toBE_length _ _)) hB
+      simp only [encSpec, encChecked, this, if_true]; rfl
+    · unfold mtlView
+      have := dec_enc_append [.fixed 1, .fixed 1, .fixed 8, .fixed 2] [.fixed 32, .lenp 3, .lenp 2]
+        [[0], [0], toBE 8 (u64 e.timestamp), toBE 2 1] [e.issuerKeyHash, e.certificate, ext] [] (hP _ (toBE_length _ _))
+      rw [List.append_nil] at this
+      rw [this]
+      have h1 : fromBE (toBE 2 1) = 1 := by decide
+      simp only [h1]
+      have := dec_enc [.fixed 32, .lenp 3, .lenp 2] [e.issuerKeyHash, e.certificate, ext] [] hB
+      rw [this, hts]
+      simp
+
+theorem mtl_inj (e e' : LogEntry) (wf : WF e) (wf' : WF e') (h : merkleTreeLeaf e = merkleTreeLeaf e') :
+    covered e = covered e' := by
+  obtain ⟨bs, ext, hm, hx, hr, hv⟩ := mtl_view e wf
+  obtain ⟨bs', ext', hm', hx', hr', hv'⟩ := mtl_view e' wf'
+  rw [hm, hm'] at h
+  cases h
+  rw [hv] at hv'
+  simp only [Option.some.injEq, Prod.mk.injEq] at hv'
+  obtain ⟨hts, hp, hk, hcert, hext⟩ := hv'
+  subst hext
+  rw [hr] at hr'
+  simp only [Except.ok.injEq, Prod.mk.injEq] at hr'
+  obtain ⟨ha, hi⟩ := hr'
+  have ht : e.timestamp = e'.timestamp := by
+    have := wf.2.1; have := wf'.2.1; omega
+  unfold covered
+  rw [ht, hp, hcert, ha, hi]
+  rw [hp] at hk
+  rw [hk]
+
+/-! ### ParseExtensions -/
+
+theorem parseExtensions_index (n : Nat) (h : n < 1099511627776) (junk : Bytes) :
+    parseExtensions (0 :: 0 :: 5 :: toBE 5 n ++ junk) = .ok (Int.ofNat n) := by
+  have e : (0 :: 0 :: 5 :: toBE 5 n ++ junk : Bytes) = enc [.fixed 1, .lenp 2] [[0], toBE 5 n] ++ junk := by
+    simp only [enc, encField, toBE_length]
+    rfl
+  unfold parseExtensions
+  have hl : (0 :: 0 :: 5 :: toBE 5 n ++ junk : Bytes).length = (7 + junk.length) + 1 := by
+    simp [toBE_length]; omega
+  rw [hl]
+  unfold parseExtensionsAux
+  rw [if_neg (by simp)]
+  rw [e, dec_enc _ _ _ (by simp only [Fits, Field.fits, toBE_length]; decide)]
+  simp only [toBE_length, if_true]
+  rw [fromBE_toBE 5 n (by simpa using h)]
+
+/-- any two sufficient amounts of fuel agree -/
+theorem parseExtensionsAux_fuel (f : Nat) : ∀ (b : Bytes) (f' : Nat), b.length ≤ f → b.length ≤ f' →
+    parseExtensionsAux f b = parseExtensionsAux f' b := by
+  induction f with
+  | zero =>
+    intro b f' h _
+    have : b = [] := List.length_eq_zero_iff.mp (by omega)
+    subst this
+    cases f' <;> simp [parseExtensionsAux]
+  | succ f ih =>
+    intro b f' h h'
+    cases f' with
+    | zero =>
+      have : b = [] := List.length_eq_zero_iff.mp (by omega)
+      subst this
+      simp [parseExtensionsAux]
+    | succ f' =>
+      simp only [parseExtensionsAux]
+      split
+      · rfl
+      · cases hd : dec [.fixed 1, .lenp 2] b with
+        | none => rfl
+        | some p =>
+          obtain ⟨vs, rest⟩ := p
+          obtain ⟨ty, ext, rfl⟩ := list_len2 (dec_length hd)
+          simp only
+          split
+          · rfl
+          · obtain ⟨henc, hfit⟩ := dec_canonical _ _ _ _ hd
+            have hlen : rest.length + 3 ≤ b.length := by
+              rw [← henc]
+              have : ty.length = 1 := hfit.1
+              simp [enc, encField, toBE_length, this]
+              omega
+            exact ih rest f' (by omega) (by omega)
+
+/-- `ParseExtensions` skips an extension of unknown type -/
+theorem parseExtensions_skip (ty : UInt8) (data rest : Bytes) (hty : ty ≠ 0) (hlen : data.length < 65536) :
+    parseExtensions (ty :: toBE 2 data.length ++ data ++ rest) = parseExtensions rest := by
+  have e : (ty :: toBE 2 data.length ++ data ++ rest : Bytes) = enc [.fixed 1, .lenp 2] [[ty], data] ++ rest := by
+    simp [enc, encField]
+  unfold parseExtensions
+  have hl : (ty :: toBE 2 data.length ++ data ++ rest : Bytes).length = (2 + data.length + rest.length) + 1 := by
+    simp [toBE_length]; omega
+  rw [hl]
+  conv => lhs; unfold parseExtensionsAux
+  rw [if_neg (by simp)]
+  rw [e, dec_enc _ _ _ (by simp only [Fits, Field.fits]; exact ⟨rfl, hlen, trivial⟩)]
+  simp only
+  rw [if_neg (by simpa using hty)]
+  exact parseExtensionsAux_fuel _ _ _ (by omega) (Nat.le_refl _)
+
+/-! ### when the encoder panics -/
+
+theorem extensionsOf_isSome (e : LogEntry) :
+    (∃ ext, extensionsOf e = some ext) ↔ (e.archival = false → 0 ≤ e.leafIndex ∧ e.leafIndex < 1099511627776) := by
+  unfold extensionsOf
+  cases ha : e.archival with
+  | true => simp
+  | false =>
+    simp only [Bool.false_eq_true, if_false, forall_const]
+    constructor
+    · intro ⟨ext, h⟩
+      by_cases hr : e.leafIndex < 0 ∨ 1099511627776 ≤ e.leafIndex
+      · rw [marshalExtensions_none hr] at h; cases h
+      · omega
+    · intro ⟨h0, h1⟩
+      exact ⟨_, marshalExtensions_eq h0 h1⟩
+
+theorem extensionsOf_length {e : LogEntry} {ext : Bytes} (h : extensionsOf e = some ext) : ext.length < 65536 := by
+  unfold extensionsOf at h
+  split at h
+  · cases h; decide
+  · by_cases hr : e.leafIndex < 0 ∨ 1099511627776 ≤ e.leafIndex
+    · rw [marshalExtensions_none hr] at h; cases h
+    · rw [marshalExtensions_eq (by omega) (by omega)] at h
+      cases h
+      simp [toBE_length]
+
+theorem append_ne_none_iff (t : Bytes) (e : LogEntry) : appendTileLeaf t e ≠ none ↔ Encodable e := by
+  unfold appendTileLeaf Encodable
+  constructor
+  · intro h
+    cases hx : extensionsOf e with
+    | none => rw [hx] at h; exact absurd rfl h
+    | some ext =>
+      rw [hx] at h
+      have hidx := (extensionsOf_isSome e).mp ⟨ext, hx⟩
+      cases hp : e.isPrecert with
+      | false =>
+        rw [hp] at h
+        have hf : Fits (schemaOf (tileLeafSpec false)) (valuesOf (tileLeafSpec false) (e, ext)) := by
+          by_cases hf : Fits (schemaOf (tileLeafSpec false)) (valuesOf (tileLeafSpec false) (e, ext))
+          · exact hf
+          · simp [encSpec, encChecked, hf] at h
+        have hf' : Fits [.fixed 8, .fixed 2, .lenp 3, .lenp 2, .lenp 2]
+          [toBE 8 (u64 e.timestamp), toBE 2 0, e.certificate, ext, e.chainFingerprints.flatten] := hf
+        simp only [Fits, Field.fits] at hf'
+        exact ⟨hf'.2.2.1, hf'.2.2.2.2.1, by simp, hidx⟩
+      | true =>
+        rw [hp] at h
+        have hf : Fits (schemaOf (tileLeafSpec true)) (valuesOf (tileLeafSpec true) (e, ext)) := by
+          by_cases hf : Fits (schemaOf (tileLeafSpec true)) (valuesOf (tileLeafSpec true) (e, ext))
+          · exact hf
+          · simp [encSpec, encChecked, hf] at h
+        have hf' : Fits [.fixed 8, .fixed 2, .fixed 32, .lenp 3, .lenp 2, .lenp 3, .lenp 2]
+          [toBE 8 (u64 e.timestamp), toBE 2 1, e.issuerKeyHash, e.certificate, ext, e.preCertificate,
+            e.chainFingerprints.flatten] := hf
+        simp only [Fits, Field.fits] at hf'
+        exact ⟨hf'.2.2.2.1, hf'.2.2.2.2.2.2.1, fun _ => ⟨hf'.2.2.1, hf'.2.2.2.2.2.1⟩, hidx⟩
+  · intro ⟨hc, hfl, hpre, hidx⟩
+    obtain ⟨ext, hx⟩ := (extensionsOf_isSome e).mpr hidx
+    have hel := extensionsOf_length hx
+    rw [hx]
+    cases hp : e.isPrecert with
+    | false =>
+      have hf : Fits (schemaOf (tileLeafSpec false)) (valuesOf (tileLeafSpec false) (e, ext)) := by
+        show Fits [.fixed 8, .fixed 2, .lenp 3, .lenp 2, .lenp 2]
+          [toBE 8 (u64 e.timestamp), toBE 2 0, e.certificate, ext, e.chainFingerprints.flatten]
+        simp only [Fits, Field.fits, toBE_length]
+        exact ⟨trivial, trivial, hc, hel, hfl, trivial⟩
+      simp [encSpec, encChecked, hf]
+    | true =>
+      obtain ⟨hk, hpl⟩ := hpre hp
+      have hf : Fits (schemaOf (tileLeafSpec true)) (valuesOf (tileLeafSpec true) (e, ext)) := by
+        show Fits [.fixed 8, .fixed 2, .fixed 32, .lenp 3, .lenp 2, .lenp 3, .lenp 2]
+          [toBE 8 (u64 e.timestamp), toBE 2 1, e.issuerKeyHash, e.certificate, ext, e.preCertificate,
+            e.chainFingerprints.flatten]
+        simp only [Fits, Field.fits, toBE_length]
+        exact ⟨trivial, trivial, hk, hc, hel, hpl, hfl, trivial⟩
+      simp [encSpec, encChecked, hf]
 
 end Codec
